@@ -66,6 +66,11 @@ type DAGResult struct {
 // set of functions it can denote (e.g. the entries of a constant table).
 var ResolveFuncValue func(v ssa.Value) ([]*ssa.Function, bool)
 
+// ResolveCallSite, when set, resolves a call through a function value by the
+// call site: the functions every summary that executed the site called there
+// (false when some execution could not resolve it, or none reached it).
+var ResolveCallSite func(site ssa.CallInstruction) ([]*ssa.Function, bool)
+
 func DAG(p *load.Program, root *ssa.Function) *DAGResult {
 	res := &DAGResult{Invokes: map[string]int{}, Externals: map[string]int{}}
 	state := map[*ssa.Function]int{} // 1 = on stack, 2 = done
@@ -129,6 +134,16 @@ func DAG(p *load.Program, root *ssa.Function) *DAGResult {
 					if cal == nil {
 						if ResolveFuncValue != nil {
 							if fs, ok := ResolveFuncValue(cc.Value); ok {
+								for _, f := range fs {
+									if load.InModule(f) && f.Blocks != nil {
+										visit(f)
+									}
+								}
+								continue
+							}
+						}
+						if ResolveCallSite != nil {
+							if fs, ok := ResolveCallSite(x); ok {
 								for _, f := range fs {
 									if load.InModule(f) && f.Blocks != nil {
 										visit(f)
